@@ -117,12 +117,15 @@ func isFieldLoad(v ssa.Value, st *types.Named, idx int) bool {
 // ---------- axis dispatch, selectors, normalisers ----------
 
 type AxisArm struct {
-	Name   string
-	Callee *ssa.Function
-	Pos    token.Pos
+	Name     string
+	Callee   *ssa.Function
+	Pos      token.Pos
+	Fields   map[int]ssa.Value // table-of-records form: the values of the record's fields
+	SelField int
 }
 
 type AxisTable struct {
+	Lookup     *ssa.Lookup // table-driven form: the lookup of the axis name
 	Handler    *ssa.Function
 	Arms       map[string]*AxisArm
 	DefaultOK  bool // default arm leaves the result untouched (returns without storing)
@@ -631,7 +634,20 @@ func (w *World) axisTableFromMap(h *ssa.Function, r *Roles, at *AxisTable) bool 
 			return
 		}
 		if _, ok := mt.Elem().Underlying().(*types.Signature); !ok {
-			return
+			// a table of records {selector, ...}: one field is the selector
+			st, isSt := mt.Elem().Underlying().(*types.Struct)
+			if !isSt {
+				return
+			}
+			nf := 0
+			for i := 0; i < st.NumFields(); i++ {
+				if _, isSig := st.Field(i).Type().Underlying().(*types.Signature); isSig {
+					nf++
+				}
+			}
+			if nf != 1 {
+				return
+			}
 		}
 		lk, g = l, gg
 	})
@@ -642,6 +658,7 @@ func (w *World) axisTableFromMap(h *ssa.Function, r *Roles, at *AxisTable) bool 
 	if c, ok := lk.Index.(*ssa.Call); !ok || staticCallee(c) == nil || staticCallee(c).Name() != "GetString" {
 		at.err = append(at.err, "axis table lookup key is not the text of the production")
 	}
+	at.Lookup = lk
 	entries, ok := w.globalMapLiteral(g)
 	if !ok {
 		at.err = append(at.err, "axis table "+g.Name()+" is not a map literal that is never updated")
@@ -654,7 +671,27 @@ func (w *World) axisTableFromMap(h *ssa.Function, r *Roles, at *AxisTable) bool 
 			continue
 		}
 		arm := &AxisArm{Name: name, Pos: e.Pos}
-		switch v := stripConv(e.Val).(type) {
+		val := stripConv(e.Val)
+		// record entry: the literal is built in a cell and loaded: take the selector field and keep the constant fields
+		if ld, isLd := val.(*ssa.UnOp); isLd {
+			if al, isAl := ld.X.(*ssa.Alloc); isAl {
+				arm.Fields = map[int]ssa.Value{}
+				for _, st := range storesInto(al) {
+					if fa, isFA := st.Addr.(*ssa.FieldAddr); isFA && fa.X == ssa.Value(al) {
+						arm.Fields[fa.Field] = st.Val
+						switch fv := stripConv(st.Val).(type) {
+						case *ssa.Function:
+							val = fv
+							arm.SelField = fa.Field
+						case *ssa.MakeClosure:
+							val = fv
+							arm.SelField = fa.Field
+						}
+					}
+				}
+			}
+		}
+		switch v := val.(type) {
 		case *ssa.Function:
 			arm.Callee = v
 		case *ssa.MakeClosure:
@@ -694,7 +731,7 @@ func (w *World) axisTableFromMap(h *ssa.Function, r *Roles, at *AxisTable) bool 
 			if !isFA || fa.Field != r.CtxResultField {
 				return
 			}
-			if c, isCall := stripConv(x.Val).(*ssa.Call); isCall && c.Call.Value == fnEx && hit {
+			if c, isCall := stripConv(x.Val).(*ssa.Call); isCall && (c.Call.Value == fnEx || isFieldOf(c.Call.Value, fnEx)) && hit {
 				hitStores = true
 			} else if !hit {
 				missClean = false
@@ -824,4 +861,23 @@ func (w *World) returnsNormalisedWith(fn *ssa.Function, dir int, depth int, boun
 		return false, "no return"
 	}
 	return ok, why
+}
+
+// isFieldOf: v is a field read of the record value rec (Field on the value, or a load through a cell holding it).
+func isFieldOf(v, rec ssa.Value) bool {
+	switch x := v.(type) {
+	case *ssa.Field:
+		return x.X == rec
+	case *ssa.UnOp:
+		if fa, ok := x.X.(*ssa.FieldAddr); ok {
+			if al, ok := fa.X.(*ssa.Alloc); ok {
+				for _, st := range storesInto(al) {
+					if st.Addr == ssa.Value(al) && st.Val == rec {
+						return true
+					}
+				}
+			}
+		}
+	}
+	return false
 }
